@@ -146,6 +146,17 @@ def acc (ws : List String) : String :=
         let d := MsgView.setFromMessage Packet.new p
         dumpPacket d ++ " | " ++ dumpPacket d
       | _ => "panic"
+  | "wadd" :: cl :: adds :: code :: pay :: spec =>
+      match buildCleared cl spec with
+      | .ok p =>
+        let addl : List (Nat × Bytes) := if adds == "_" then [] else
+          (adds.splitOn ",").filterMap (fun kv => match kv.splitOn ":" with
+            | [n, v] => some (nat! n, parseVal v)
+            | _ => none)
+        let p1 := addl.foldl (fun (m : Packet) (kv : Nat × Bytes) => m.addOption (optNum (toString kv.1)) kv.2) p
+        let d : Packet := { p1 with header := { p1.header with code := MessageClass.ofU8 (nat! code) }, payload := parseVal pay }
+        dumpPacket d ++ " | " ++ dumpPacket d
+      | _ => "panic"
   | "mut" :: cl :: x :: len :: t :: spec =>
       match buildCleared cl spec with
       | .ok p =>
